@@ -577,7 +577,9 @@ def evaluate_sizes(nodes, warn=null_warn):
             padding = (alignment - byte_size % alignment) % alignment
             byte_size += padding
             if any(is_member_dynamic(m) for m in node_.members):
-                prev_member.padding = (node_.members[-1].alignment < alignment) and (-alignment) or 0
+                # byte size of an optional is not a multiple of its alignment, so its end needs aligning too
+                unaligned_end = (node_.members[-1].alignment < alignment) or node_.members[-1].optional
+                prev_member.padding = unaligned_end and (-alignment) or 0
             else:
                 prev_member.padding = padding
         node_.byte_size, node_.alignment = byte_size, alignment
